@@ -12,7 +12,7 @@
 From Coq Require Import List Arith Lia ZArith Bool QArith Qcanon.
 Import ListNotations.
 From PGV Require Import BasisCoxDeBoor FindSpan CubicUniform Sums SplineModel SplineTheory SplineQc
-  AdvCommon FluxAdv VParAdv ParGrad AdvQc.
+  InterpModel InterpTheory AdvCommon FluxAdv VParAdv ParGrad AdvInterp AdvQc.
 
 (** the loop that writes der[(i-s), :] without modulo addresses, on its rows [fwd, nz-bkwd), exactly the row (i - s) % nz and never raises (for odd orders this relies on numpy's negative indices) *)
 Theorem c13_regimes_eq_modulo :
@@ -149,6 +149,89 @@ Theorem c13_ev_const_nu :
 Proof. exact adv_ev_const_nu. Qed.
 Print Assumptions c13_ev_const_nu.
 
+(* ---- interpolate-then-operate: composed with C08 (AdvInterp.v) ---- *)
+
+(** compute_interpolant (C08) on a constant potential on every z plane, the table of feet built by _getThetaVals for ANY rotational transform, certified weights: parallel_gradient returns zero everywhere (no hypothesis on spline values) *)
+Theorem c13_interp_then_constants_zero :
+  forall (F : Type) (K : sp_ops F),
+  sp_laws K ->
+  forall (cu : bool) (knots : list F) (deg : nat) (pi : F) (nz n : nat) (qVals : list F)
+  (us cs A Ainv : list (list F)) (kappa dz iota R0 : F) (tv : list (list (list F)))
+  (coeffs : list F) (bz inv_dz : F),
+  let nb := ip_nbasis F K knots deg true cu in
+  let twopi := spmul K (sp_two F K) pi in
+  adv_trunc_ok F K ->
+  sp_lt K (sp0 K) twopi ->
+  ai_space F K cu knots deg (sp0 K) twopi ->
+  (2 <= n)%nat ->
+  (n <= nz)%nat ->
+  length us = nz ->
+  length cs = nz ->
+  ip_colloc F K nb knots deg true cu qVals = SpOk A ->
+  ip_inverse_ok F K nb A Ainv = true ->
+  ip_rows_sum_one F K nb A ->
+  (forall m : nat, (m < nz)%nat -> ip_interp1d F K knots deg true cu qVals (nth m us []) = SpOk (nth m cs [])) ->
+  (forall m i : nat, (m < nz)%nat -> (i < nb)%nat -> nth i (nth m us []) (sp0 K) = kappa) ->
+  pgr_theta_vals F K nz (pgr_shifts n) qVals dz iota R0 pi = SpOk tv ->
+  pgr_moments_ok F K (pgr_shifts n) coeffs = true ->
+  pgr_parallel_gradient F K (adv_ev F K cu knots deg) nz (length qVals) n cs tv (pgr_shifts n) coeffs bz inv_dz =
+  SpOk (map (fun _ : nat => map (fun _ : nat => sp0 K) (seq 0 (length qVals))) (seq 0 nz)).
+Proof. exact ai_pgr_interp_then_constants_zero. Qed.
+Print Assumptions c13_interp_then_constants_zero.
+
+(** shift invariance of uniform-cubic periodic splines: with periodic coefficients c[i] = g((i - r) mod n) ([ai_per g n r]), translating the point by t cells modulo the period and rotating the coefficients by t cells gives the same value ([ai_pt a o] = (a + o)*dx, the point of cell a with offset o) *)
+Theorem c13_cu_shift_eval :
+  forall (F : Type) (K : sp_ops F),
+  sp_laws K ->
+  forall (dx xmax fn : F) (rest : list F) (n : nat),
+  adv_trunc_ok F K ->
+  sp_lt K (sp0 K) dx ->
+  (3 <= n)%nat ->
+  sptrunc K fn = Z.of_nat n ->
+  xmax = spmul K (sp_ofnat F K n) dx ->
+  forall (g : Z -> F) (r t : Z) (a : nat) (o : F),
+  (a < n)%nat ->
+  sp_le K (sp0 K) o ->
+  sp_lt K o (sp1 K) ->
+  adv_ev F K true (sp0 K :: xmax :: dx :: fn :: rest) 3 (ai_per F g n (r + t))
+  (adv_mod F K (spadd K (ai_pt F K dx a o) (spmul K (sp_ofZ F K t) dx)) xmax) =
+  adv_ev F K true (sp0 K :: xmax :: dx :: fn :: rest) 3 (ai_per F g n r) (ai_pt F K dx a o).
+Proof. exact ai_cu_shift_eval. Qed.
+Print Assumptions c13_cu_shift_eval.
+
+(** iota <> 0: when the twist per z cell iota*dz/R0 is a whole number c of theta cells and n | c*nz (the field line closes after the z period), the potentials whose theta-spline on plane m is the spline of plane 0 rotated by c*m cells - phi(theta, z_m) = phi_0(theta - iota*z_m/R0), constant along field lines, arbitrary periodic phi_0 in the spline space - have zero parallel gradient (certified weights).  When the twist per cell is not a whole number of theta cells, the translate of a non-constant spline by the twist has knots off the lattice and is not in the space: no non-constant field-aligned potential is representable plane by plane, and c13_aligned_zero then speaks about approximations only *)
+Theorem c13_aligned_family_zero :
+  forall (F : Type) (K : sp_ops F),
+  sp_laws K ->
+  forall (dx xmax fn : F) (rest : list F) (n : nat),
+  adv_trunc_ok F K ->
+  sp_lt K (sp0 K) dx ->
+  (3 <= n)%nat ->
+  sptrunc K fn = Z.of_nat n ->
+  xmax = spmul K (sp_ofnat F K n) dx ->
+  forall (g : Z -> F) (c : Z) (pi : F) (nz nord : nat) (qVals : list F) (aq : nat -> nat)
+  (oq : nat -> F) (cs : list (list F)) (dz iota R0 : F) (tv : list (list (list F)))
+  (coeffs : list F) (bz inv_dz : F),
+  spmul K (sp_two F K) pi = xmax ->
+  R0 <> sp0 K ->
+  spdiv K (spmul K iota dz) R0 = spmul K (sp_ofZ F K c) dx ->
+  ((c * Z.of_nat nz) mod Z.of_nat n)%Z = 0%Z ->
+  (2 <= nord)%nat ->
+  (nord <= nz)%nat ->
+  length cs = nz ->
+  (forall q : nat,
+  (q < length qVals)%nat ->
+  nth q qVals (sp0 K) = ai_pt F K dx (aq q) (oq q) /\
+  (aq q < n)%nat /\ sp_le K (sp0 K) (oq q) /\ sp_lt K (oq q) (sp1 K)) ->
+  (forall m : nat, (m < nz)%nat -> nth m cs [] = ai_per F g n (c * Z.of_nat m)) ->
+  pgr_theta_vals F K nz (pgr_shifts nord) qVals dz iota R0 pi = SpOk tv ->
+  pgr_moments_ok F K (pgr_shifts nord) coeffs = true ->
+  pgr_parallel_gradient F K (adv_ev F K true (sp0 K :: xmax :: dx :: fn :: rest) 3) nz
+  (length qVals) nord cs tv (pgr_shifts nord) coeffs bz inv_dz =
+  SpOk (map (fun _ : nat => map (fun _ : nat => sp0 K) (seq 0 (length qVals))) (seq 0 nz)).
+Proof. exact ai_pgr_aligned_family_zero. Qed.
+Print Assumptions c13_aligned_family_zero.
+
 Theorem c13_qc_instance : sp_laws spq_ops.
 Proof. exact spq_laws. Qed.
 Print Assumptions c13_qc_instance.
@@ -181,3 +264,30 @@ Example c13_ex_gradient :
                     /\ spq_show (nth 0 (nth 0 d []) (Q2Qc 0)) <> (0%Z, 1%positive))
   | _, _ => False end.
 Proof. vm_compute. split; [reflexivity|split; [reflexivity|]]. eexists. split; [reflexivity|]. discriminate. Qed.
+
+(* ---- non-vacuity of the interpolate-then-gradient theorems and of the field-aligned family (iota <> 0) ---- *)
+(* uniform cubic, 4 theta cells of width 11/7, nz = 4, order 2; twist per z cell = 1 theta cell:
+   iota*dz/R0 = 11/7 with dz = 1, R0 = 1, iota = 11/7;  c*nz = 4 = n *)
+Definition c13_ex_g (i : Z) : Qc := nth (Z.to_nat i) [spq_of 1 1; spq_of 5 1; spq_of 2 1; spq_of 7 1] (Q2Qc 0).
+Definition c13_ex_rows : list (list Qc) := map (fun m => ai_per Qc c13_ex_g 4 (1 * Z.of_nat m)) (seq 0 4).
+Definition c13_ex_tv1 := pgrq_theta_vals 4 (pgr_shifts 3) c13_ex_q (spq_of 1 1) (spq_of 11 7) (spq_of 1 1) c13_ex_pi.
+Example c13_ex_aligned_family :
+  match c13_ex_tv1 with
+  | SpOk tv =>
+      (* the family: zero gradient *)
+      advq_show_rows (pgrq_parallel_gradient 4 4 3 c13_ex_rows tv (pgr_shifts 3) c13_ex_w2 (spq_of 9 10) (spq_of 1 1) c13_ex_knots 3 true)
+      = advq_show_rows (SpOk (map (fun _ => map (fun _ => Q2Qc 0) (seq 0 4)) (seq 0 4)))
+      (* it is not trivial: the planes differ, and the same plane repeated (not field aligned) has a non-zero gradient *)
+      /\ map spq_show (nth 0 c13_ex_rows []) <> map spq_show (nth 1 c13_ex_rows [])
+      /\ advq_show_rows (pgrq_parallel_gradient 4 4 3 (map (fun _ => nth 0 c13_ex_rows []) (seq 0 4)) tv (pgr_shifts 3) c13_ex_w2
+                           (spq_of 9 10) (spq_of 1 1) c13_ex_knots 3 true)
+         <> advq_show_rows (SpOk (map (fun _ => map (fun _ => Q2Qc 0) (seq 0 4)) (seq 0 4)))
+  | _ => False end.
+Proof. vm_compute. split; [reflexivity|split; discriminate]. Qed.
+Example c13_ex_interp_then_constants_zero :
+  match c13_ex_tv 4, ip_interp1d Qc spq_ops c13_ex_knots 3 true true c13_ex_q [spq_of 5 3; spq_of 5 3; spq_of 5 3; spq_of 5 3] with
+  | SpOk tv, SpOk c =>
+      advq_show_rows (pgrq_parallel_gradient 5 4 4 [c; c; c; c; c] tv (pgr_shifts 4) c13_ex_w3 (spq_of 9 10) (spq_of 2 1) c13_ex_knots 3 true)
+      = advq_show_rows (SpOk (map (fun _ => map (fun _ => Q2Qc 0) (seq 0 4)) (seq 0 5)))
+  | _, _ => False end.
+Proof. vm_compute. reflexivity. Qed.
